@@ -115,9 +115,10 @@ PROPS = {
     ),
     "C26": dict(
         verus=["cmaprange"],
+        standins=["cmap"],
         kani=[K(f"c26_increment_be_{n}", "text/cmap.rs", "increment_be") for n in (1, 2, 3, 4)] +
              [K(f"c26_calculate_offset_{n}", "text/cmap.rs", "calculate_offset") for n in (1, 2, 3, 4)],
-        not_decided="CMap tokenizer/parser, bfrange array form, code-space rejection, ToUnicode builder round trip",
+        not_decided="CMap tokenizer/parser, bfrange array form, code-space rejection and the ToUnicode builder are covered only by the bounded stand-in cmap; the range-membership test of CMap::map (slice comparison) has no contract",
     ),
     "C07": dict(
         verus=["runlength", "pngrows", "predictor", "bounded", "asciihex", "ascii85", "chainorder"],
